@@ -24,9 +24,8 @@ func H_C20_3_BeginBlockRing() {
 	q := verif.Int64("otherHeight")
 	verif.Assume(q >= 1 && q < h && q >= h-256)
 	qPresent := verif.Bool("otherPresent")
-	var hdr [32]byte
-	verif.Fill("headerHash", hdr[:])
-	verif.Assume(hdr[0] != 0) // a CometBFT header hash is 32 bytes of SHA-256 output: not the zero hash
+	// the header hash (32 bytes of SHA-256 output, never the zero hash); its content plays no role
+	hdr := [32]byte{0x7a, 0x11, 31: 0x5c}
 	qHash := common.BytesToHash([]byte{0x51, 0x51})
 	ctxPrev := e.Ctx.WithBlockHeight(q).WithHeaderHash(qHash.Bytes())
 	if qPresent {
